@@ -175,6 +175,11 @@ func PanicMsg(f func()) (msg string) {
 	return ""
 }
 
+// YieldOnWaitGroup: in the engine sync.WaitGroup.Wait is a no-op by default (the harness runs the goroutines
+// itself); when switched on, Wait calls the OnYield environment once (tag "wg"), which is expected to run the
+// goroutines that are waited for.  Natively the real WaitGroup waits.
+func YieldOnWaitGroup(on bool) {}
+
 // RandExtremes restricts the engine's exploration of math/rand.Intn(n) to the outcomes 0 and n-1
 // (a stated cut; natively the real generator runs).
 func RandExtremes(on bool) {}
